@@ -2,8 +2,8 @@
 SPECIFICATION Spec
 CONSTANTS
   MaxDepth = 9
-  DsNames = {"R180", "M360", "E360", "ZIG", "IRR", "RPT", "F2D", "BADS"}
-  StartForms = {"fresh", "imported", "saved", "sparse"}
+  DsNames = {"R180", "M360", "M72", "E360", "ZIG", "IRR", "RPT", "F2D", "BADS"}
+  StartForms = {"fresh", "imported", "saved", "cached", "sparse"}
   EmitMode = 2
   BUG_SINOHIST = TRUE
   BUG_LOAD360 = TRUE
@@ -14,11 +14,7 @@ CONSTANTS
   BUG_STALEBINS = TRUE
   BUG_COMPARE = TRUE
 INVARIANT TypeOK
-INVARIANT Partition
-INVARIANT RoundTripLoads
-INVARIANT RoundTripPersist
-INVARIANT RoundTripDerived
-INVARIANT LoadIdempotent
+INVARIANT RoundTripPinned
 INVARIANT CacheNoMix
 INVARIANT EmitFinal
 VIEW View
